@@ -11,6 +11,7 @@ import DtailModel.Lemmas.GoRT
 import DtailModel.Lemmas.GoStr
 import DtailModel.Lemmas.NoPanic
 import DtailModel.Lemmas.GenQuery
+import DtailModel.Lemmas.GenOptions
 namespace Dtail.GenDecode
 open Dtail Dtail.Go Dtail.GenQuery
 
@@ -135,5 +136,264 @@ theorem handleCommand_ok (ext : Ext) (h : baseHandler) (commandStr : GoString) :
     rw [hvd]
     dsimp only
     apply IsOk_ite <;> intro _ <;> exact ⟨_, rfl⟩
+
+/-! ### The decoder computes what the model computes -/
+
+open Gen.Decode in
+/-- the protocol check passes -/
+def GoodVersion (args : List GoString) : Prop :=
+  2 < args.length ∧ args.getD 0 [] = b!"protocol" ∧ args.getD 1 [] = Facts.protocolCompatBytes
+
+open Gen.Decode in
+theorem handleProtocolVersion_spec (ext : Ext) (h : baseHandler) (args : List GoString) :
+    (GoodVersion args → ∃ add, baseHandler.handleProtocolVersion ext h args = .ok (h, args.drop 2, (args.length : Int) - 2, add, none)) ∧
+    (¬ GoodVersion args → ∃ a c add e, baseHandler.handleProtocolVersion ext h args = .ok (h, a, c, add, some e)) := by
+  unfold baseHandler.handleProtocolVersion GoodVersion
+  dsimp only
+  have hl : (GoLen.len args : Int) = (args.length : Int) := rfl
+  by_cases h2 : (args.length : Int) ≤ 2
+  · have g : (decide (GoLen.len args ≤ 2) || goInRange args 0) = true := by simp [hl, h2]
+    have g' : (decide (GoLen.len args ≤ 2) || (GoIndex.idx args 0 != lit_0)) = true := by simp [hl, h2]
+    rw [if_pos g, if_pos g']
+    exact ⟨fun hg => by omega, fun _ => ⟨_, _, _, _, rfl⟩⟩
+  · have g0 : goInRange args 0 = true := inRange_of_len _ 0 (by omega) (by omega)
+    have g1 : goInRange args 1 = true := inRange_of_len _ 1 (by omega) (by omega)
+    have gs : goSliceOk args 2 (args.length : Int) = true := sliceOk_of_len _ 2 (by omega) (by omega)
+    have i0 : (GoIndex.idx args (0 : Int) : GoString) = args.getD 0 [] := rfl
+    have i1 : (GoIndex.idx args (1 : Int) : GoString) = args.getD 1 [] := rfl
+    have hd2 : Int.toNat 2 = 2 := rfl
+    have hle : decide ((args.length : Int) ≤ 2) = false := by simp [h2]
+    simp only [hl]
+    simp only [g0, g1, gs, Bool.or_true, if_true, i0, i1, hd2, hle, Bool.false_or]
+    by_cases hp : args.getD 0 [] = b!"protocol"
+    · have hp' : (args.getD 0 [] != lit_0) = false := by rw [hp]; rfl
+      rw [if_neg (by rw [hp']; simp)]
+      by_cases hc : args.getD 1 [] = Facts.protocolCompatBytes
+      · have hc' : (args.getD 1 [] != ([52, 46, 49] : GoString)) = false := by rw [hc]; rfl
+        rw [if_neg (by rw [hc']; simp)]
+        exact ⟨fun _ => ⟨_, rfl⟩, fun hn => absurd ⟨by omega, hp, hc⟩ hn⟩
+      · have hc' : (args.getD 1 [] != ([52, 46, 49] : GoString)) = true := by
+          simp only [bne_iff_ne, ne_eq]; exact hc
+        rw [if_pos hc']
+        refine ⟨fun hg => absurd hg.2.2 hc, fun _ => ?_⟩
+        repeat (first | exact ⟨_, _, _, _, rfl⟩ | (apply ite_rule (fun r => ∃ a c add e, r = Outcome.ok (h, a, c, add, some e)) <;> intro _))
+    · have hp' : (args.getD 0 [] != lit_0) = true := by
+        simp only [bne_iff_ne, ne_eq]; exact hp
+      rw [if_pos hp']
+      exact ⟨fun hg => absurd hg.2.1 hp, fun _ => ⟨_, _, _, _, rfl⟩⟩
+
+open Gen.Decode in
+theorem handleBase64_spec (ext : Ext) (env : Env) (he : GenOptions.ExtIs ext env) (h : baseHandler) (args : List GoString) :
+    let r := baseHandler.handleBase64 ext h args (args.length : Int)
+    (args.length = 2 ∧ args.getD 0 [] = b!"base64" →
+      match env.b64dec (args.getD 1 []) with
+      | some d => r = .ok (h, splitOnByte 32 d, ((splitOnByte 32 d).length : Int), none)
+      | none => ∃ a c e, r = .ok (h, a, c, some e)) ∧
+    (¬ (args.length = 2 ∧ args.getD 0 [] = b!"base64") → ∃ a c e, r = .ok (h, a, c, some e)) := by
+  intro r
+  show (_ → match env.b64dec (args.getD 1 []) with
+      | some d => baseHandler.handleBase64 ext h args (args.length : Int) = _
+      | none => ∃ a c e, baseHandler.handleBase64 ext h args (args.length : Int) = _) ∧
+    (_ → ∃ a c e, baseHandler.handleBase64 ext h args (args.length : Int) = _)
+  unfold baseHandler.handleBase64
+  dsimp only
+  by_cases h2 : (args.length : Int) = 2
+  · have g0 : goInRange args 0 = true := inRange_of_len _ 0 (by omega) (by omega)
+    have g1 : goInRange args 1 = true := inRange_of_len _ 1 (by omega) (by omega)
+    have i0 : (GoIndex.idx args (0 : Int) : GoString) = args.getD 0 [] := rfl
+    have i1 : (GoIndex.idx args (1 : Int) : GoString) = args.getD 1 [] := rfl
+    have hne : ((args.length : Int) != 2) = false := by simp [h2]
+    simp only [g0, g1, Bool.or_true, if_true, i0, i1, hne, Bool.false_or]
+    by_cases hb : args.getD 0 [] = b!"base64"
+    · have hb' : (args.getD 0 [] != lit_6) = false := by rw [hb]; rfl
+      rw [if_neg (by rw [hb']; simp)]
+      refine ⟨fun _ => ?_, fun hn => absurd ⟨by omega, hb⟩ hn⟩
+      cases hd : env.b64dec (args.getD 1 []) with
+      | some d =>
+        simp only [he.b64ok _ d hd, bne_self_eq_false, Bool.false_eq_true, if_false]
+        rfl
+      | none =>
+        have hne' := he.b64err _ hd
+        have hbb : ((ext.base64Decode (args.getD 1 [])).2 != none) = true := by simpa using hne'
+        simp only [hbb, if_true]
+        cases hee : (ext.base64Decode (args.getD 1 [])).2 with
+        | none => exact absurd hee hne'
+        | some ee => exact ⟨_, _, ee, rfl⟩
+    · have hb' : (args.getD 0 [] != lit_6) = true := by simp only [bne_iff_ne, ne_eq]; exact hb
+      rw [if_pos hb']
+      exact ⟨fun hg => absurd hg.2 hb, fun _ => ⟨_, _, _, rfl⟩⟩
+  · have g : (((args.length : Int) != 2) || goInRange args 0) = true := by simp [h2]
+    have g' : (((args.length : Int) != 2) || (GoIndex.idx args 0 != lit_6)) = true := by simp [h2]
+    rw [if_pos g, if_pos g']
+    exact ⟨fun hg => by omega, fun _ => ⟨_, _, _, rfl⟩⟩
+
+open Gen.Decode in
+/-- how the translated `handleCommand` (started on a handler that has recorded nothing) matches the model's decoder: the
+    command callback is invoked once with the model's name, count, arguments and line context, `handleOptions` with a
+    map that answers like the model's option list; on an error nothing is started -/
+def CmdMatches (r : Outcome DecodedCmd) (t : Outcome baseHandler) : Prop :=
+  match r with
+  | .ok d => ∃ h' gl, t = .ok h' ∧ h'.started = [(gl, (d.argc : Int), d.args, d.name)] ∧ GenOptions.ltxOf gl = d.ltx ∧
+      (match d.options with
+       | none => h'.options = []
+       | some o => ∃ m, h'.options = [m] ∧ GenOptions.Rel m o)
+  | .err _ => ∃ h', t = .ok h' ∧ h'.started = [] ∧ h'.options = []
+  | .panic _ => True
+
+theorem getD_eq_getElem? {α : Type} (l : List α) (i : Nat) (d : α) (h : i < l.length) : l[i]? = some (l.getD i d) := by
+  rw [List.getD_eq_getElem?_getD, List.getElem?_eq_getElem h]; rfl
+
+open Gen.Decode in
+/-- **`handleCommand` as translated from the working tree decodes what the model decodes** -/
+theorem handleCommand_refines (ext : Ext) (env : Env) (he : GenOptions.ExtIs ext env) (cmd : GoString) :
+    CmdMatches (decodeCommand env cmd) (baseHandler.handleCommand ext {} cmd) := by
+  unfold baseHandler.handleCommand decodeCommand decodeEnvelope
+  have hargs : 0 < (splitOnByte SP cmd).length := List.length_pos_iff.2 (splitOnByte_ne_nil _ _)
+  have hsp : splitOnByte (32 : UInt8) cmd = splitOnByte SP cmd := rfl
+  rw [hsp]
+  generalize splitOnByte SP cmd = args at hargs ⊢
+  obtain ⟨hvg, hvb⟩ := handleProtocolVersion_spec ext {} args
+  by_cases hg : GoodVersion args
+  · obtain ⟨add, hv⟩ := hvg hg
+    obtain ⟨hlen, hp0, hp1⟩ := hg
+    rw [hv]
+    dsimp only
+    have e0 := getD_eq_getElem? args 0 [] (by omega)
+    have e1 := getD_eq_getElem? args 1 [] (by omega)
+    simp only [goIndex, e0, e1, hp0, hp1, Bind.bind, Outcome.bind, goSliceFrom, bne_self_eq_false, Bool.false_eq_true, if_false]
+    have hle : ¬ (args.length ≤ 2 ∨ b!"protocol" ≠ b!"protocol") := by
+      intro h; rcases h with h | h
+      · omega
+      · exact h rfl
+    have hcs : ¬ (Facts.protocolCompatBytes ≠ Facts.protocolCompatBytes) := fun h => h rfl
+    have h2le : 2 ≤ args.length := by omega
+    simp only [hle, hcs, if_false, h2le, if_true]
+    -- the envelope
+    have hdl : ((args.drop 2).length : Int) = (args.length : Int) - 2 := by
+      rw [List.length_drop]; omega
+    rw [← hdl]
+    obtain ⟨hbg, hbb⟩ := handleBase64_spec ext env he {} (args.drop 2)
+    have hd0 : 0 < (args.drop 2).length := by rw [List.length_drop]; omega
+    have f0 := getD_eq_getElem? (args.drop 2) 0 [] hd0
+    rw [f0]
+    dsimp only
+    have hcount : args.length - 2 = (args.drop 2).length := by rw [List.length_drop]
+    rw [hcount]
+    by_cases hb : (args.drop 2).length = 2 ∧ (args.drop 2).getD 0 [] = b!"base64"
+    · have hb64 := hbg hb
+      obtain ⟨hl2, hb0⟩ := hb
+      have f1 := getD_eq_getElem? (args.drop 2) 1 [] (by omega)
+      have hnb : ¬ ((args.drop 2).length ≠ 2 ∨ (args.drop 2).getD 0 [] ≠ b!"base64") := by
+        intro h; rcases h with h | h
+        · exact h hl2
+        · exact h hb0
+      simp only [hnb, if_false, f1]
+      cases hd : env.b64dec ((args.drop 2).getD 1 []) with
+      | none =>
+        rw [hd] at hb64
+        obtain ⟨a, c, e, hr⟩ := hb64
+        rw [hr]
+        simp only [CmdMatches]
+        exact ⟨_, rfl, rfl, rfl⟩
+      | some decoded =>
+        rw [hd] at hb64
+        simp only at hb64
+        rw [hb64]
+        dsimp only
+        simp only [bne_self_eq_false, Bool.false_eq_true, if_false]
+        -- the decoded command
+        unfold decodeInner decodeArgs decodeParts
+        have hsp2 : splitOnByte (32 : UInt8) decoded = splitOnByte SP decoded := rfl
+        rw [hsp2]
+        have hdargs : 0 < (splitOnByte SP decoded).length := List.length_pos_iff.2 (splitOnByte_ne_nil _ _)
+        generalize splitOnByte SP decoded = dargs at hdargs ⊢
+        have d0 := getD_eq_getElem? dargs 0 [] hdargs
+        rw [if_pos (inRange_of_len _ 0 (by omega) (by omega))]
+        have i0 : (GoIndex.idx dargs (0 : Int) : GoString) = dargs.getD 0 [] := rfl
+        rw [i0]
+        have hsc : splitOnByte (58 : UInt8) (dargs.getD 0 []) = splitOnByte COLON (dargs.getD 0 []) := rfl
+        rw [hsc]
+        have hparts : 0 < (splitOnByte COLON (dargs.getD 0 [])).length := List.length_pos_iff.2 (splitOnByte_ne_nil _ _)
+        simp only [goIndex, d0, Bind.bind, Outcome.bind]
+        generalize splitOnByte COLON (dargs.getD 0 []) = parts at hparts ⊢
+        have p0 := getD_eq_getElem? parts 0 [] hparts
+        rw [if_pos (inRange_of_len _ 0 (by omega) (by omega))]
+        have j0 : (GoIndex.idx parts (0 : Int) : GoString) = parts.getD 0 [] := rfl
+        rw [j0]
+        simp only [p0]
+        have hlp : (GoLen.len parts : Int) = (parts.length : Int) := rfl
+        by_cases h1 : parts.length = 1
+        · have g : ((GoLen.len parts == 1) || goInRange parts 1) = true := by simp [hlp, h1]
+          have g' : ((GoLen.len parts == 1) || (GoLen.len (GoIndex.idx parts 1 : GoString) == 0)) = true := by simp [hlp, h1]
+          rw [if_pos g, if_pos g']
+          simp only [h1, if_true, Pure.pure, CmdMatches]
+          exact ⟨_, {}, rfl, rfl, rfl, rfl⟩
+        · have hp1lt : 1 < parts.length := by omega
+          have g1 : goInRange parts 1 = true := inRange_of_len _ 1 (by omega) (by omega)
+          have gs : goSliceOk parts 1 (GoLen.len parts) = true := sliceOk_of_len _ 1 (by omega) (by omega)
+          have p1 := getD_eq_getElem? parts 1 [] hp1lt
+          have j1 : (GoIndex.idx parts (1 : Int) : GoString) = parts.getD 1 [] := rfl
+          have hne1 : ((GoLen.len parts : Int) == 1) = false := by
+            rw [hlp]; simp only [beq_eq_false_iff_ne, ne_eq]; omega
+          simp only [g1, gs, Bool.or_true, if_true, j1, hne1, Bool.false_or, h1, if_false, p1, Pure.pure]
+          have hl1 : (GoLen.len (parts.getD 1 []) : Int) = ((parts.getD 1 []).length : Int) := rfl
+          by_cases he0 : (parts.getD 1 []).length = 0
+          · have : ((GoLen.len (parts.getD 1 []) : Int) == 0) = true := by rw [hl1, he0]; rfl
+            rw [if_pos this]
+            simp only [he0, decide_true, if_true, CmdMatches]
+            exact ⟨_, {}, rfl, rfl, rfl, rfl⟩
+          · have : ((GoLen.len (parts.getD 1 []) : Int) == 0) = false := by
+              rw [hl1]; simp only [beq_eq_false_iff_ne, ne_eq]; omega
+            simp only [this, Bool.false_eq_true, if_false]
+            have hge : 1 ≤ parts.length := by omega
+            have hd1 : Int.toNat 1 = 1 := rfl
+            simp only [he0, decide_false, Bool.false_eq_true, if_false, goSliceFrom, hge, if_true, hd1]
+            have hm := GenOptions.DeserializeOptions_refines ext env he (parts.drop 1)
+            cases hmo : deserializeOptions env (parts.drop 1) [] {} with
+            | ok pr =>
+              obtain ⟨o', l'⟩ := pr
+              rw [hmo] at hm
+              obtain ⟨m', gl', ht, hrel, hl⟩ := hm
+              rw [ht]
+              simp only [bne_self_eq_false, Bool.false_eq_true, if_false, CmdMatches]
+              refine ⟨_, gl', rfl, ?_, hl, ?_⟩
+              · rfl
+              · exact ⟨m', rfl, hrel⟩
+            | err e =>
+              rw [hmo] at hm
+              obtain ⟨m', gl', e', ht⟩ := hm
+              rw [ht]
+              simp only [CmdMatches]
+              refine ⟨_, rfl, ?_, ?_⟩ <;> rfl
+            | panic pmsg => simp only [CmdMatches]
+    · obtain ⟨a, c, e, hr⟩ := hbb hb
+      rw [hr]
+      have hnb : (args.drop 2).length ≠ 2 ∨ (args.drop 2).getD 0 [] ≠ b!"base64" := by
+        by_cases hl2 : (args.drop 2).length = 2
+        · right; intro h0; exact hb ⟨hl2, h0⟩
+        · left; exact hl2
+      simp only [hnb, if_true, CmdMatches]
+      exact ⟨_, rfl, rfl, rfl⟩
+  · obtain ⟨a, c, add, e, hv⟩ := hvb hg
+    rw [hv]
+    dsimp only
+    have e0 := getD_eq_getElem? args 0 [] hargs
+    simp only [goIndex, e0, Bind.bind, Outcome.bind]
+    unfold GoodVersion at hg
+    by_cases hle : args.length ≤ 2 ∨ args.getD 0 [] ≠ b!"protocol"
+    · simp only [hle, if_true, CmdMatches]
+      exact ⟨_, rfl, rfl, rfl⟩
+    · have hlt : 2 < args.length := by
+        by_cases h : args.length ≤ 2
+        · exact absurd (Or.inl h) hle
+        · omega
+      have hp0 : args.getD 0 [] = b!"protocol" := by
+        by_cases h : args.getD 0 [] = b!"protocol"
+        · exact h
+        · exact absurd (Or.inr h) hle
+      have e1 := getD_eq_getElem? args 1 [] (by omega)
+      have hc : args.getD 1 [] ≠ Facts.protocolCompatBytes := fun hc => hg ⟨hlt, hp0, hc⟩
+      simp only [hle, if_false, e1, hc, ne_eq, not_false_eq_true, if_true, CmdMatches]
+      exact ⟨_, rfl, rfl, rfl⟩
 
 end Dtail.GenDecode
